@@ -304,6 +304,9 @@ func collectFmtFacts(w *World, ctxs map[string]*CtxInfo) *fmtFacts {
 					if grammarCtxName(a.Type()) == "" {
 						continue
 					}
+					if _, passThrough := stripIdentity(a).(*ssa.Parameter); passThrough {
+						continue // handed on unchanged: whoever obtained the node from its parent is responsible
+					}
 					for _, c := range w.possibleCtxs(fn, a, ctxs, 0) {
 						if ff.visitFrom[c] == nil {
 							ff.visitFrom[c] = map[string]bool{}
@@ -1111,6 +1114,82 @@ func c10SameLineAnchor(w *World, r *Report, fns []*ssa.Function) {
 			continue
 		}
 		cnt := 0
+		// predicate constructors: a repo function handed the anchor token whose (closure's) GetLine() is taken on that parameter
+		forEachInstr(fn, func(b *ssa.BasicBlock, ins ssa.Instruction) {
+			c, ok := ins.(ssa.CallInstruction)
+			if !ok {
+				return
+			}
+			h := c.Common().StaticCallee()
+			if h == nil || h.Pkg != w.Parser || h.Blocks == nil || len(qf[h]) > 0 {
+				return
+			}
+			for _, g := range append([]*ssa.Function{h}, h.AnonFuncs...) {
+				forEachInstr(g, func(_ *ssa.BasicBlock, i2 ssa.Instruction) {
+					call, ok := i2.(*ssa.Call)
+					if !ok || !call.Call.IsInvoke() || call.Call.Method.Name() != "GetLine" {
+						return
+					}
+					recv := stripIdentity(call.Call.Value)
+					byRef := false
+					if ld, ok := recv.(*ssa.UnOp); ok && ld.Op == token.MUL {
+						if fv, ok := ld.X.(*ssa.FreeVar); ok {
+							recv, byRef = fv, true // captured by reference: the variable's cell
+						}
+					}
+					// a captured variable of the closure: which value of h was captured?
+					if fv, ok := recv.(*ssa.FreeVar); ok && g != h {
+						for j, x := range g.FreeVars {
+							if x != fv {
+								continue
+							}
+							forEachInstr(h, func(_ *ssa.BasicBlock, i3 ssa.Instruction) {
+								if mc, ok := i3.(*ssa.MakeClosure); ok && mc.Fn == ssa.Value(g) && j < len(mc.Bindings) {
+									recv = stripIdentity(mc.Bindings[j])
+									if al, ok := recv.(*ssa.Alloc); ok && byRef {
+										// the cell of a parameter that is never re-assigned
+										var stored ssa.Value
+										nst := 0
+										for _, ref := range *al.Referrers() {
+											if st, ok := ref.(*ssa.Store); ok && st.Addr == ssa.Value(al) {
+												nst++
+												stored = st.Val
+											}
+										}
+										if nst == 1 {
+											recv = stripIdentity(stored)
+										}
+									}
+								}
+							})
+						}
+					}
+					p, ok := recv.(*ssa.Parameter)
+					if !ok || p.Parent() != h {
+						return // the comment under test (the predicate's own parameter) or something local
+					}
+					for idx, q := range h.Params {
+						if q != p || idx >= len(c.Common().Args) {
+							continue
+						}
+						n++
+						cnt++
+						key := fmt.Sprintf("%s same-line test #%d compares with the line of the token the query is anchored at", fnKey(fn), cnt)
+						okA := false
+						for _, a := range anchors {
+							if sameTok(c.Common().Args[idx], a) {
+								okA = true
+							}
+						}
+						if okA {
+							r.pass(rule, key, w.instrPos(ins), "through "+fnKey(h))
+						} else {
+							r.fail(rule, key, w.instrPos(ins), "the comment's line is compared (in "+fnKey(h)+") with the line of a token other than the one whose hidden tokens are examined")
+						}
+					}
+				})
+			}
+		})
 		for _, g := range append([]*ssa.Function{fn}, fn.AnonFuncs...) {
 			forEachInstr(g, func(b *ssa.BasicBlock, ins ssa.Instruction) {
 				call, ok := ins.(*ssa.Call)
